@@ -19,7 +19,7 @@ META = {
                  "correspondence batches (coordinates of all live objects and buffer-identity classes after every step)",
     "level_text": "Machine-checked Coq theorems about an executable heap model of mesh.py (copy, merge, from_arrays), "
                   "transform.py, rings.py, _prepare_vertices and Vec(x), for every operation history and over every "
-                  "(ordered) field of coordinates, after nine fix: commits: a copy equals its source, uses fresh buffers and "
+                  "(ordered) field of coordinates, after fifteen fix: commits: a copy equals its source, uses fresh buffers and "
                   "stays isolated from it under any later history of writes; merge concatenates the vertices, shifts the "
                   "indices of input k by the running vertex count, takes the largest dimensionality and uses fresh, pairwise "
                   "distinct buffers even when one mesh is merged twice; 'no two vertex ids share a buffer' is an invariant of "
@@ -107,6 +107,7 @@ def encode_case(case, steps):
     prev = []
     prevcls = None
     infos = []
+    dirty = set()
     for k, (op, st) in enumerate(zip(case["ops"], steps)):
         if not st["ok"]:
             break
@@ -124,14 +125,14 @@ def encode_case(case, steps):
             if not all(same_info(infos[m], si) for m, si in zip(srcs, info["src"])):
                 break
         if name == "arr":
-            t = "(ONew false %s [] [] [] corn0 (-1))" % coq_list(["(IFresh %s)" % vl(p) for p in new["xyz"]])
+            t = "(ONew ByUser %s [] [] [] corn0 [] (-1))" % coq_list(["(IFresh %s)" % vl(p) for p in new["xyz"]])
         elif name == "from_arrays":
             t = "(OFromArrays %s %s %s %s %s %s)" % (nat(op[1]), zll(info["edges"]), zll(info["faces"]), zll(info["cells"]),
                                                      corn(info), zlit(info["kind"]))
         elif name == "ring":
             t = "(ORing %s %s %s %s %s %s %s)" % (zlit(op[1]), zlit(op[2]), coq_bool(op[3]), coq_list([vl(p) for p in new["xyz"]]),
                                                  zll(info["edges"]), zll(info["faces"]), corn(info))
-        elif name in ("proc", "load", "subdiv", "border"):
+        elif name in ("proc", "load", "subdiv", "border", "tree", "path", "cutgraph", "features"):
             where = {}
             for i, o in enumerate(cur[:-1]):
                 for s, c in enumerate(o["cls"]):
@@ -142,15 +143,30 @@ def encode_case(case, steps):
                     pat.append("(IShare %s %s)" % (nat(where[c][0]), nat(where[c][1])))
                 else:
                     pat.append("(IFresh %s)" % vl(p))
-            # built through RawMeshData.prepare()?  (PointCloud.append and extract_boundary_of_surface are not)
-            prep = not (name == "proc" and op[1] == "pointcloud") and not (name == "border" and infos[op[1]]["kind"] == 2)
-            t = "(ONew %s %s %s %s %s %s %s)" % (coq_bool(prep), coq_list(pat), zll(info["edges"]), zll(info["faces"]),
-                                                zll(info["cells"]), corn(info), zlit(info["kind"]))
+            # how the result comes about: the caller's own vectors (PointCloud.append), an exporter that appends to a
+            # PolyLine() directly (Gen.append_mode), or RawMeshData.prepare()
+            if name == "proc" and op[1] == "pointcloud":
+                how = "ByUser"
+            elif name == "border" and infos[op[1]]["kind"] == 2:
+                how = "(ByAppend 0)"
+            elif name == "path":
+                how = "(ByAppend 1)"
+            elif name == "tree":
+                how = "(ByAppend %d)" % {"edge": 2, "face": 3, "cell": 4}[op[2]]
+            else:
+                how = "ByPrepare"
+            # attributes a file format carried over (loaders) are part of what the producer hands out
+            at0 = coq_list(["(%s, %s, %s)" % (zlit(x[0]), zlit(x[1]), core.zlist(x[2])) for x in new["attrs"]])
+            if any(v is None for x in new["attrs"] for v in x[2]):
+                break
+            t = "(ONew %s %s %s %s %s %s %s %s)" % (how, coq_list(pat), zll(info["edges"]), zll(info["faces"]),
+                                                   zll(info["cells"]), corn(info), at0, zlit(info["kind"]))
         elif name == "copy":
             t = "(OCopy %s %s)" % (nat(op[1]), coq_bool(op[2]))
             # every container of the copy against what was observed on the source (NewSame: the two observations are
             # identical, Coq compares the model's copy with the stored observation of the source)
-            onew = "(NewSame %s)" % nat(op[1]) if same_info(info, infos[op[1]]) else "(NewFull %s)" % info_term(info)
+            onew = "(NewSame %s)" % nat(op[1]) if same_info(info, infos[op[1]]) and op[1] not in dirty \
+                else "(NewFull %s)" % info_term(info)
         elif name == "merge":
             t = "(OMerge %s)" % coq_list([nat(m) for m in op[1]])
             onew = "(NewFull %s)" % info_term(info)
@@ -159,6 +175,8 @@ def encode_case(case, steps):
                 v = OR.resolve(prev, p)
                 return "None" if v is None else "(Some %s)" % vl(v)
             pre = prev[op[1]]["xyz"]
+            if name in ("attr", "attr_edit", "elem_edit") and any(v is None for x in cur[op[1]]["attrs"] for v in x[2]):
+                break
             if name == "translate":
                 p = op[2]
                 if isinstance(p, list) and p and p[0] == "slot":
@@ -166,7 +184,9 @@ def encode_case(case, steps):
                 else:
                     t = "(OTranslate %s (PVal %s))" % (nat(op[1]), vl(p))
             elif name == "rotate":
-                R = op[2]
+                # the exact rational rotation matrix the generator meant (the JSON carries its nearest binary64 entries):
+                # the model accepts rotation matrices only, like scipy's Rotation.from_matrix
+                R = [[Fraction(x).limit_denominator(10000) for x in r] for r in op[2]]
                 t = "(ORotate %s (%s, %s, %s) %s)" % (nat(op[1]), vl(R[0]), vl(R[1]), vl(R[2]), orig(op[3]))
             elif name == "scale":
                 t = "(OScale %s %s %s)" % (nat(op[1]), ql(op[2]), orig(op[3]))
@@ -186,6 +206,18 @@ def encode_case(case, steps):
                 t = "(OEdit %s %s %s %s)" % (nat(op[1]), nat(op[2]), nat(op[3]), ql(op[4]))
             elif name == "set":
                 t = "(OSet %s %s %s)" % (nat(op[1]), nat(op[2]), vl(op[3]))
+            elif name == "attr":
+                # the values of all keys of the container, as the implementation shows them (unset keys read the default)
+                vals = next(x[2] for x in cur[op[1]]["attrs"] if x[0] == op[2] and x[1] == op[3])
+                t = "(OAttrSet %s %s %s %s)" % (nat(op[1]), zlit(op[2]), zlit(op[3]), core.zlist(vals))
+            elif name == "attr_edit":
+                t = "(OAttrEdit %s %s %s %s %s)" % (nat(op[1]), zlit(op[2]), zlit(op[3]), nat(op[4]), zlit(op[5]))
+            elif name == "elem_edit":
+                ci = {"edges": 0, "faces": 1, "cells": 2}[op[2]]
+                el = cur[op[1]]["elems"][ci][op[3]]
+                t = "(OElemEdit %s %s %s %s)" % (nat(op[1]), nat(ci), nat(op[3]), core.zlist(el))
+                infos[op[1]] = dict(infos[op[1]], **{op[2]: cur[op[1]]["elems"][ci]})
+                dirty.add(op[1])
             else:
                 raise ValueError(name)
         changed = []
@@ -193,7 +225,15 @@ def encode_case(case, steps):
             if i >= len(prev) or o["xyz"] != prev[i]["xyz"]:
                 changed.append("(%s, %s)" % (nat(i), coq_list([vl(p) for p in o["xyz"]])))
         cls = [c for o in cur for c in o["cls"]]
-        items.append("(%s, mkobs %s %s %s)" % (t, coq_list(changed), "None" if cls == prevcls else "(Some %s)" % core.zlist(cls), onew))
+        oat, oel = [], []
+        for i, o in enumerate(cur):
+            before = prev[i]["attrs"] if i < len(prev) else []
+            if o["attrs"] != before:
+                oat.append("(%s, %s)" % (nat(i), coq_list(["(%s, %s, %s)" % (zlit(x[0]), zlit(x[1]), core.zlist(x[2])) for x in o["attrs"]])))
+            if i < len(prev) and o["elems"] != prev[i]["elems"]:
+                oel.append("(%s, (%s, %s, %s))" % (nat(i), zll(o["elems"][0]), zll(o["elems"][1]), zll(o["elems"][2])))
+        items.append("(%s, mkobs %s %s %s %s %s)" % (t, coq_list(changed), "None" if cls == prevcls else "(Some %s)" % core.zlist(cls),
+                                                    onew, coq_list(oat), coq_list(oel)))
         prevcls = cls
         if info is not None:
             infos.append(info)
@@ -241,8 +281,8 @@ def shrink(ctx, case, key):
     return cur
 
 
-CREATORS = ("copy", "merge", "from_arrays", "subdiv", "border")
-WRITERS = OR.TRANSFORMS + ("edit", "set")
+CREATORS = ("copy", "merge", "from_arrays", "subdiv", "border", "tree", "path", "cutgraph", "features")
+WRITERS = OR.TRANSFORMS + ("edit", "set", "attr", "attr_edit", "elem_edit")
 
 
 def nontrivial(case):
@@ -254,7 +294,7 @@ def nontrivial(case):
 # ---------------------------------------------------------------------- the check
 def run(ctx):
     quick = ctx.tier == "quick"
-    n_cases = 600 if quick else 8000
+    n_cases = 500 if quick else 8000
     if os.environ.get("VERIF_C06_CASES"):      # development aid (mutation self-tests)
         n_cases = int(os.environ["VERIF_C06_CASES"])
     ctx.rule = ("histories of <= ~20 calls over 1-3 initial meshes (from_arrays over float/int caller arrays incl. two meshes "
@@ -269,7 +309,12 @@ def run(ctx):
         "coordinates are exact rationals in the model (Qc); the implementation's binary64 values are converted exactly and "
         "compared with tolerance 1e-9(1+|x|)",
         "producers outside C06's anchors enter the model through their observed aliasing pattern (checked duplicate-free)",
-        "normalisation of a mesh with zero extent (division by zero) is outside the property and cuts the history",
+        "normalisation of a mesh with zero extent: the code divides by zero silently and writes NaN/inf coordinates, the model "
+        "returns the error value None; the property excludes the case ('needs max span > 0'), the history is cut there",
+        "rotate: the model accepts exact rotation matrices only (R^T R = I, det 1), as scipy's Rotation.from_matrix does "
+        "(it orthonormalises anything else); the generator draws 15 rational rotation matrices",
+        "user-level container writes (PointCloud.append, mesh.vertices[i] = v) store the caller's vector as it is, number type "
+        "included: the harness hands them float vectors; integer-valued numbers go as ints to every library producer/transform",
     ]
     ok_gen = ctx.regen(sys.modules[__name__])
     b = ctx.build_props(extra_targets=["theories/C06/Run.vo"])
@@ -319,8 +364,10 @@ def run(ctx):
     viol = sorted(k for k, v in prod.items() if v[1])
     ctx.log("producers whose results share vertex buffers (inside the result, with another live object or with the caller): %s"
             % (", ".join("%s %d/%d" % (k, prod[k][1], prod[k][0]) for k in viol) or "none"))
+    unknown = [f for f in fails if not ctx.known(f[2])]
     ctx.obligation("oracle: value semantics restated on every observation of the implementation (snapshots of all live objects)",
-                   "oracle-on-implementation", True, "%d failing steps" % len(fails))
+                   "oracle-on-implementation", not unknown,
+                   "%d failing steps%s" % (len(fails), (": " + "; ".join(sorted({f[2] for f in unknown}))[:600]) if unknown else ""))
 
     ctx.log("oracle done: %d failing steps" % len(fails))
     # 2. kernel-checked correspondence
